@@ -9,6 +9,7 @@ import (
 	"bufio"
 	"bytes"
 	"context"
+	crand "crypto/rand"
 	"crypto/tls"
 	"errors"
 	"fmt"
@@ -109,14 +110,33 @@ var (
 
 func init() { log.SetOutput(io.Discard) }
 
+// freeAddr picks a free port below the kernel's ephemeral range (32768–60999 here). Listeners of other
+// processes that ask for port 0 can therefore never land on a port this harness has just released (which would
+// look like "the closed listener accepts again"), and the pick does not depend on ephemeral ports being
+// available (other harnesses on the same machine can leave tens of thousands of them in TIME_WAIT).
 func freeAddr() (string, error) {
-	l, err := net.Listen("tcp", "127.0.0.1:0")
-	if err != nil {
-		return "", err
+	var last error
+	for i := 0; i < 200; i++ {
+		var b [2]byte
+		crand.Read(b[:])
+		port := 20000 + (int(b[0])<<8|int(b[1]))%12000
+		a := fmt.Sprintf("127.0.0.1:%d", port)
+		l, err := net.Listen("tcp", a)
+		if err != nil {
+			last = err
+			continue
+		}
+		l.Close()
+		// also free on the wildcard address (the tcp-dynamic listener binds ":port")
+		l2, err := net.Listen("tcp", fmt.Sprintf(":%d", port))
+		if err != nil {
+			last = err
+			continue
+		}
+		l2.Close()
+		return a, nil
 	}
-	a := l.Addr().String()
-	l.Close()
-	return a, nil
+	return "", fmt.Errorf("no free port found: %v", last)
 }
 
 func waitListening(addr string, errc <-chan error) error {
@@ -504,6 +524,10 @@ func runScenario(in *ScenarioIn) (*ScenarioOut, error) {
 		return nil, err
 	}
 	out, err := runOnce(in)
+	for try := 0; err != nil && try < 3; try++ { // set-up trouble (no ports, slow machine): not an observation
+		time.Sleep(3 * time.Second)
+		out, err = runOnce(in)
+	}
 	if err != nil {
 		return nil, err
 	}
